@@ -3,6 +3,8 @@ package main
 import (
 	"fmt"
 	"strings"
+
+	"golang.org/x/tools/go/ssa"
 )
 
 // Lemma layer (DESIGN.md section 2.10).
@@ -93,4 +95,64 @@ func runLemmas(p *Program, cx *Contracts, cfg *PropConfig) ([]*Obligation, []str
 		}
 	}
 	return out, errs
+}
+
+// closureMayWrite reports, per free variable of a closure, whether the closure's body (or a closure it creates) can
+// change the captured variable: a store through it (directly or through a field / element address derived from it),
+// or the variable escaping into a call or another closure.  Captured variables that are only read keep their value
+// when the closure is handed to a callee that is represented by its contract.
+func closureMayWrite(fn *ssa.Function) []bool {
+	out := make([]bool, len(fn.FreeVars))
+	idx := map[ssa.Value]int{}
+	for i, fv := range fn.FreeVars {
+		idx[fv] = i
+	}
+	root := func(v ssa.Value) (int, bool) {
+		for d := 0; d < 8; d++ {
+			if i, ok := idx[v]; ok {
+				return i, true
+			}
+			switch x := v.(type) {
+			case *ssa.FieldAddr:
+				v = x.X
+			case *ssa.IndexAddr:
+				v = x.X
+			default:
+				return 0, false
+			}
+		}
+		return 0, false
+	}
+	for _, b := range fn.Blocks {
+		for _, ins := range b.Instrs {
+			switch x := ins.(type) {
+			case *ssa.Store:
+				if i, ok := root(x.Addr); ok {
+					out[i] = true
+				}
+			case *ssa.MapUpdate:
+				if i, ok := root(x.Map); ok {
+					out[i] = true
+				}
+			case *ssa.MakeClosure:
+				for _, bnd := range x.Bindings {
+					if i, ok := root(bnd); ok {
+						inner := closureMayWrite(x.Fn.(*ssa.Function))
+						for j, b2 := range x.Bindings {
+							if b2 == bnd && j < len(inner) && inner[j] {
+								out[i] = true
+							}
+						}
+					}
+				}
+			case ssa.CallInstruction:
+				for _, a := range x.Common().Args {
+					if i, ok := root(a); ok {
+						out[i] = true // the address of the captured variable is handed on
+					}
+				}
+			}
+		}
+	}
+	return out
 }
